@@ -37,12 +37,22 @@ struct NextRequest { stream_id: u64 }
 #[derive(Serialize, Deserialize)]
 struct CancelRequest { stream_id: u64, reason: String }
 
-/// resource string "n=<N>,w=<a.b.c>,fail=<f|-1>,ps=<producer sleep us>"
+/// resource string "n=<N>,w=<a.b.c>,fail=<f|-1>,ps=<producer sleep us>[,panic=1]"; with panic=1 the producer
+/// panics at the failure point instead of returning an error (its thread vanishes without a terminal marker)
 fn parse_res(r: &str) -> (usize, Vec<usize>, i64, u64) {
+    let (n, w, fail, ps, _) = parse_res5(r);
+    (n, w, fail, ps)
+}
+fn fail_now(panic: bool) -> std::io::Error {
+    if panic { panic!("scripted producer panic"); }
+    std::io::Error::other("scripted producer failure")
+}
+fn parse_res5(r: &str) -> (usize, Vec<usize>, i64, u64, bool) {
     let mut n = 0;
     let mut w = vec![1usize];
     let mut fail = -1i64;
     let mut ps = 0u64;
+    let mut panic = false;
     for kv in r.split(',') {
         let (k, v) = kv.split_once('=').unwrap_or((kv, ""));
         match k {
@@ -50,17 +60,18 @@ fn parse_res(r: &str) -> (usize, Vec<usize>, i64, u64) {
             "w" => w = v.split('.').filter_map(|x| x.parse().ok()).collect(),
             "fail" => fail = v.parse().unwrap_or(-1),
             "ps" => ps = v.parse().unwrap_or(0),
+            "panic" => panic = v == "1",
             _ => {}
         }
     }
     if w.is_empty() { w = vec![1]; }
-    (n, w, fail, ps)
+    (n, w, fail, ps, panic)
 }
 
-struct FailingReader { data: Vec<u8>, pos: usize, fail: i64, sizes: Vec<usize>, k: usize }
+struct FailingReader { data: Vec<u8>, pos: usize, fail: i64, sizes: Vec<usize>, k: usize, panic: bool }
 impl Read for FailingReader {
     fn read(&mut self, out: &mut [u8]) -> std::io::Result<usize> {
-        if self.fail >= 0 && self.pos as i64 >= self.fail { return Err(std::io::Error::other("scripted producer failure")); }
+        if self.fail >= 0 && self.pos as i64 >= self.fail { return Err(fail_now(self.panic)); }
         let lim = if self.fail >= 0 { (self.fail as usize).min(self.data.len()) } else { self.data.len() };
         let want = self.sizes[self.k % self.sizes.len()].max(1);
         self.k += 1;
@@ -75,13 +86,13 @@ pub fn router_for(kind: &str, opts: StreamOpts) -> Router {
     let r = Router::new();
     match kind {
         "writer" => r.with_writer_stream(BodyFormat::RawBinary, |res: &str| {
-            let (n, w, fail, ps) = parse_res(res);
+            let (n, w, fail, ps, panic) = parse_res5(res);
             Some(move |sink: &mut dyn Write| -> std::io::Result<()> {
                 let data = produced(n);
                 let mut pos = 0usize;
                 let mut k = 0usize;
                 loop {
-                    if fail >= 0 && pos as i64 >= fail { return Err(std::io::Error::other("scripted producer failure")); }
+                    if fail >= 0 && pos as i64 >= fail { return Err(fail_now(panic)); }
                     if pos >= n { return Ok(()); }
                     let lim = if fail >= 0 { (fail as usize).min(n) } else { n };
                     let take = w[k % w.len()].max(1).min(lim - pos);
@@ -92,7 +103,7 @@ pub fn router_for(kind: &str, opts: StreamOpts) -> Router {
                 }
             })
         }, opts),
-        "reader" => r.with_reader_stream(|res: &str| { let (n, w, fail, _) = parse_res(res); Some(FailingReader { data: produced(n), pos: 0, fail, sizes: w, k: 0 }) }, opts),
+        "reader" => r.with_reader_stream(|res: &str| { let (n, w, fail, _, panic) = parse_res5(res); Some(FailingReader { data: produced(n), pos: 0, fail, sizes: w, k: 0, panic }) }, opts),
         // serde value: a byte vector (BEVE-encoded by the producer)
         "value" => r.with_value_stream(|res: &str| { let (n, ..) = parse_res(res); Some(produced(n).into_iter().map(|b| b as u16).collect::<Vec<u16>>()) }, opts),
         "typed" => r.with_typed_value_stream(|res: &str| { let (n, ..) = parse_res(res); Some((0..n).map(|i| i as f64 * 0.5).collect::<Vec<f64>>()) }, opts),
@@ -164,6 +175,11 @@ fn unhex(s: &str) -> Vec<u8> { (0..s.len() / 2).map(|k| u8::from_str_radix(&s[2 
 
 pub fn c09(a: &Args) -> i32 {
     let thorough = a.flag("thorough");
+    let prev = std::panic::take_hook();
+    std::panic::set_hook(Box::new(move |info| {
+        let scripted = info.payload().downcast_ref::<&str>().map(|s| s.contains("scripted producer panic")).unwrap_or(false);
+        if !scripted { prev(info); }
+    }));
     let rt = tokio::runtime::Builder::new_multi_thread().worker_threads(4).enable_all().build().unwrap();
     let mut out = util::NdJson::create(&a.req("out"));
     let chunks: Vec<usize> = if thorough { vec![1, 2, 3, 7, 64, 1000, 1 << 16, 1 << 20] } else { vec![1, 3, 7, 64, 1 << 16] };
@@ -198,10 +214,14 @@ pub fn c09(a: &Args) -> i32 {
                         fails.sort(); fails.dedup();
                         for f in fails {
                             if f as usize > n { continue; }
-                            let res = format!("n={n},w={pattern},fail={f},ps=0");
-                            let mut e = raw_pull(&c, &res, 0, None);
-                            finish_raw(&mut e, "writer", n, f, compu, chunk, depth, &logical("writer", n), 0, 0);
-                            out.push(&e); n_pulls += 1;
+                            // the producer fails by returning an error, or by panicking (its thread vanishes)
+                            for pn in [0, 1] {
+                                let res = format!("n={n},w={pattern},fail={f},ps=0,panic={pn}");
+                                let mut e = raw_pull(&c, &res, 0, None);
+                                finish_raw(&mut e, "writer", n, f, compu, chunk, depth, &logical("writer", n), 0, 0);
+                                e["panic"] = json!(pn == 1);
+                                out.push(&e); n_pulls += 1;
+                            }
                         }
                     }
                     // release in the middle: cancel after k replies, the next pull must be an error
@@ -216,9 +236,9 @@ pub fn c09(a: &Args) -> i32 {
                 let ac = rt.block_on(AsyncClient::connect(srv.addr)).unwrap();
                 let wc = rt.block_on(WebSocketClient::connect(&format!("ws://{}/ws", srv.ws_addr))).unwrap();
                 for &n in ns.iter().step_by(3) {
-                    for fail in [-1i64, (n / 2) as i64] {
+                    for (fail, pn) in [(-1i64, 0), ((n / 2) as i64, 0), ((n / 2) as i64, 1), (0, 1)] {
                         if fail == 0 && n == 0 { continue; }
-                        let res = format!("n={n},w=3.1,fail={fail},ps=0");
+                        let res = format!("n={n},w=3.1,fail={fail},ps=0,panic={pn}");
                         let want = logical("writer", n);
                         for via in ["pull_to_vec", "pull_to_vec_async", "pull_to_vec_ws"] {
                             let r: Result<Vec<u8>, RepeError> = match via {
@@ -256,9 +276,12 @@ pub fn c09(a: &Args) -> i32 {
                         }
                         // a failing reader
                         if kind == "reader" {
-                            let mut e = raw_pull(&c, "n=20,w=3,fail=7,ps=0", 0, None);
-                            finish_raw(&mut e, kind, 20, 7, compu, chunk, depth, &produced(20), 0, 0);
-                            out.push(&e); n_pulls += 1;
+                            for (f, pn) in [(7, 0), (7, 1), (0, 1), (0, 0)] {
+                                let mut e = raw_pull(&c, &format!("n=20,w=3,fail={f},ps=0,panic={pn}"), 0, None);
+                                finish_raw(&mut e, kind, 20, f, compu, chunk, depth, &produced(20), 0, 0);
+                                e["panic"] = json!(pn == 1);
+                                out.push(&e); n_pulls += 1;
+                            }
                         }
                     }
                 }
